@@ -3,7 +3,7 @@ from props._create import create_check, SAB_SCRATCH, SAB_RESET
 
 
 def run(tier):
-    return create_check(
+    rep = create_check(
         "C11", tier,
         "C11: the accumulators counts/totals/skips and the projection scratch index are persistent variables of the "
         "model, reset explicitly as in the code; FinalIsSumOfContributions and PerRecordContribution make the result "
@@ -11,3 +11,11 @@ def run(tier):
         "the library replay compares the site delivered for each record after every prefix history.",
         ["MCCreate_hist_quick.cfg"], ["MCCreate_hist_t1.cfg", "MCCreate_hist_t2.cfg"],
         [SAB_RESET, SAB_SCRATCH])
+    # cohort-size histories with projection in two orders (CreateLarge.tla): nothing computed for one record may
+    # influence another, also not through caches inside the hypergeometric weights
+    import vcore
+    r = vcore.tlc_must_pass("c11_large", "MCCreateLarge", "MCCreateLarge_quick.cfg" if tier == "quick" else "MCCreateLarge_t1.cfg",
+                            workers=4, timeout=3000)
+    rep.add_tlc(r)
+    rep.add_replay("createlarge", vcore.replay("createlarge", r.replay, "c11_large"))
+    return rep
